@@ -33,3 +33,9 @@ def inv_stage(name, fn):
         return st
     stage.__name__ = name
     return stage
+
+
+def stage_encoders(ctx):
+    st = Stage('encoder-correspondence')
+    SC.encoder_corr(ctx, st)
+    return st
